@@ -9,6 +9,30 @@ import re
 from collections import defaultdict, deque
 
 
+def _rust_unescape(t):
+    out = []
+    i = 0
+    while i < len(t):
+        c = t[i]
+        if c == "\\" and i + 1 < len(t):
+            n = t[i + 1]
+            if n == "u" and i + 2 < len(t) and t[i + 2] == "{":
+                j = t.index("}", i)
+                out.append(chr(int(t[i + 3:j], 16)))
+                i = j + 1
+                continue
+            if n == "x":
+                out.append(chr(int(t[i + 2:i + 4], 16)))
+                i += 4
+                continue
+            out.append({"n": "\n", "r": "\r", "t": "\t", "0": "\0", "\\": "\\", '"': '"', "'": "'"}.get(n, n))
+            i += 2
+            continue
+        out.append(c)
+        i += 1
+    return "".join(out)
+
+
 class Call:
     __slots__ = ("body", "bb", "func", "args", "dest", "target", "unwind", "line", "argtys", "mac")
 
@@ -361,6 +385,8 @@ class Body:
         if not op or op[0] != "k":
             return None
         k = op[1]
+        if isinstance(k, dict) and "o" in k and k.get("ty") in ("&str", "&'static str") and len(k["o"]) >= 2 and k["o"][0] == '"' and k["o"][-1] == '"':
+            return {"s": _rust_unescape(k["o"][1:-1]), "ty": "&str"}
         if isinstance(k, dict) and "promo" in k:
             ps = self.d.get("promos", [])
             if k["promo"] < len(ps):
